@@ -100,6 +100,8 @@ def default_render(ns, na, ne, rng: random.Random | None = None, plain=False):
     return {
         "sdims": sd, "slows": slows, "avecs": avecs, "evecs": evecs,
         "prob_as_array": rng.random() < 0.3, "has_init_policy": False,
+        "outside_to_last": any(lo > 0 or lo + d <= 0 for lo, d in zip(slows, sd)) and rng.random() < 0.6,
+        "ghost": any(lo > 0 or lo + d <= 0 for lo, d in zip(slows, sd)),
     }
 
 
@@ -118,12 +120,23 @@ def make_problem(mdp: dict):
     )
     avecs = np.array(r["avecs"], dtype=np.int32).reshape(na, -1)
     evecs = np.array(r["evecs"], dtype=np.int32).reshape(ne, -1)
-    nxt = jnp.array(np.array(mdp["next"], dtype=np.int32).reshape(ns, na, ne))
-    rew = jnp.array(
-        np.array(mdp["rew"], dtype=np.float64).reshape(ns, na, ne) / float(2 ** mdp["rexp"])
-    )
-    prob = jnp.array(np.array(mdp["pk"], dtype=np.float64).reshape(ns, na, ne) / float(mdp["PD"]))
-    v0 = jnp.array(np.array(mdp["v0"], dtype=np.float64) / float(2 ** mdp["v0exp"]))
+    # Row ns of every table is a GHOST row used for vectors outside the state space (only the all-zero
+    # padding rows ever are): like a problem whose transition is arithmetic on the vector, an unlisted
+    # vector has dynamics of its own (reward 7, jumps to the last state) although the index function maps
+    # it onto a listed state.  Nothing computed for it may ever reach a real state.
+    ghost = bool(r.get("ghost", False))
+    nxt_np = np.array(mdp["next"], dtype=np.int32).reshape(ns, na, ne)
+    rew_np = np.array(mdp["rew"], dtype=np.float64).reshape(ns, na, ne) / float(2 ** mdp["rexp"])
+    prob_np = np.array(mdp["pk"], dtype=np.float64).reshape(ns, na, ne) / float(mdp["PD"])
+    v0_np = np.array(mdp["v0"], dtype=np.float64) / float(2 ** mdp["v0exp"])
+    nxt_np = np.concatenate([nxt_np, np.full((1, na, ne), ns - 1, dtype=np.int32)])
+    rew_np = np.concatenate([rew_np, np.full((1, na, ne), 7.0)])
+    prob_np = np.concatenate([prob_np, prob_np[:1]])
+    v0_np = np.concatenate([v0_np, [3.0]])
+    nxt = jnp.array(nxt_np)
+    rew = jnp.array(rew_np)
+    prob = jnp.array(prob_np)
+    v0 = jnp.array(v0_np)
     pol0 = None
     if r.get("has_init_policy"):
         pol0 = jnp.array(avecs[np.array(mdp["pol0"], dtype=np.int32)])
@@ -134,6 +147,7 @@ def make_problem(mdp: dict):
     j_lows = jnp.array(np.array(slows, dtype=np.int32))
     j_dims = jnp.array(np.array(sdims, dtype=np.int32))
     prob_as_array = r.get("prob_as_array", False)
+    outside_to_last = bool(r.get("outside_to_last", False))
 
     class TabularProblem(Problem):
         @property
@@ -150,8 +164,16 @@ def make_problem(mdp: dict):
             return j_evecs
 
         def state_to_index(self, state):
-            rel = jnp.clip(jnp.asarray(state).astype(jnp.int32) - j_lows, 0, j_dims - 1)
-            return jnp.sum(rel * j_strides)
+            v = jnp.asarray(state).astype(jnp.int32) - j_lows
+            rel = jnp.clip(v, 0, j_dims - 1)
+            idx = jnp.sum(rel * j_strides)
+            if outside_to_last:
+                # vectors outside the box (only padding rows ever are) alias the LAST state - the index
+                # of an unlisted vector is unspecified by the Problem API; this choice puts the alias in
+                # the same batch as the padding rows
+                inside = jnp.all((v >= 0) & (v <= j_dims - 1))
+                idx = jnp.where(inside, idx, ns - 1)
+            return idx
 
         def _aidx(self, action):
             return jnp.argmax(jnp.all(j_avecs == jnp.asarray(action).astype(jnp.int32), axis=1))
@@ -159,16 +181,23 @@ def make_problem(mdp: dict):
         def _eidx(self, event):
             return jnp.argmax(jnp.all(j_evecs == jnp.asarray(event).astype(jnp.int32), axis=1))
 
+        def _row(self, state):
+            if not ghost:
+                return self.state_to_index(state)
+            v = jnp.asarray(state).astype(jnp.int32) - j_lows
+            inside = jnp.all((v >= 0) & (v <= j_dims - 1))
+            return jnp.where(inside, self.state_to_index(state), ns)
+
         def random_event_probability(self, state, action, random_event):
-            p = prob[self.state_to_index(state), self._aidx(action), self._eidx(random_event)]
+            p = prob[self._row(state), self._aidx(action), self._eidx(random_event)]
             return p.reshape(1) if prob_as_array else p
 
         def transition(self, state, action, random_event):
-            s, a, e = self.state_to_index(state), self._aidx(action), self._eidx(random_event)
+            s, a, e = self._row(state), self._aidx(action), self._eidx(random_event)
             return j_states[nxt[s, a, e]], rew[s, a, e]
 
         def initial_value(self, state):
-            return v0[self.state_to_index(state)]
+            return v0[self._row(state)]
 
     if pol0 is not None:
         def initial_policy(self, state):
